@@ -380,7 +380,10 @@ void mp_lucnum_ui(integer_class &res, unsigned long n)
 void mp_lucnum2_ui(integer_class &a, integer_class &b, unsigned long n)
 {
     if (n == 0) {
-        throw std::runtime_error("index of lucas number cannot be negative");
+        // L(0) = 2, L(-1) = -1 (as mpz_lucnum2_ui gives)
+        a = 2;
+        b = -1;
+        return;
     }
     two_by_two_matrix result_matrix = luc_matrix(n - 1);
     a = result_matrix.data[0][0];
